@@ -1702,7 +1702,7 @@ ly_time_str2time(const char *value, time_t *time, char **fractions_s)
     tm.tm_sec = atoi(&value[17]);
 
     /* explicit checks for some gross errors */
-    if (tm.tm_mon > 11) {
+    if ((tm.tm_mon < 0) || (tm.tm_mon > 11)) {
         LOGERR(NULL, LY_EINVAL, "Invalid date-and-time month \"%d\".", tm.tm_mon);
         return LY_EINVAL;
     }
